@@ -91,7 +91,18 @@ fn step_c14(m: &EngModel, w: &mut World, s: &EngSt, a: &Act, out: &mut StepOut) 
                 .iter()
                 .filter(|v| w.vstate_at(&cosmwasm_std::Addr::unchecked(v.as_str())).open)
                 .collect();
-            if !still_open.is_empty() {
+            // the fund can close a vAMM it owns or that names it as its insurance fund; a registered vAMM over which
+            // it has neither authority cannot be closed by it at all (a deployment error, outside the statement)
+            let fund = w.ifund.to_string();
+            let has_authority = |v: &String| -> bool {
+                let a = cosmwasm_std::Addr::unchecked(v.as_str());
+                let names_fund = w.q::<margined_perp::margined_vamm::ConfigResponse, _>(&a, &margined_perp::margined_vamm::QueryMsg::Config {}).map(|c| c.insurance_fund.to_string() == fund).unwrap_or(false);
+                let owned = w.q::<margined_perp::margined_vamm::OwnerResponse, _>(&a, &margined_perp::margined_vamm::QueryMsg::GetOwner {}).map(|o| o.owner.to_string() == fund).unwrap_or(false);
+                names_fund || owned
+            };
+            if reg.iter().any(|v| !has_authority(v)) {
+                out.tag("c14:shutdown-with-a-vamm-outside-the-funds-authority");
+            } else if !still_open.is_empty() {
                 let closed_before = pre_reg.len() - {
                     // how many registered vAMMs were open before the call
                     let post_now = w.snapshot();
@@ -258,9 +269,19 @@ pub fn run_c14(tier: Tier) -> i32 {
         px_at_spot(),
     ];
     let depth = tier.pick(4, 5);
+    // vAMM 1 handed over to the fund as its owner and then configured (by the fund) to name another insurance fund:
+    // the fund keeps its authority to close it
+    let mut seed_owned = seed.clone();
+    seed_owned.push(Act::VammAdmin { by: "owner".into(), v: 1, owner: Some("@ifund".into()), ifund: None });
+    seed_owned.push(Act::VammAdmin { by: "@ifund".into(), v: 1, owner: None, ifund: Some("other_ifund".into()) });
     let mut e = Exp::new("admin states", cfg.clone(), alpha.clone(), vec![seed.clone()], depth);
     e.traders = T3.to_vec();
     let mut exps = vec![e];
+    {
+        let mut e = Exp::new("admin states, a vAMM owned by the fund names another fund", cfg.clone(), alpha.clone(), vec![seed_owned], depth - 1);
+        e.traders = T3.to_vec();
+        exps.push(e);
+    }
     if tier == Tier::Thorough {
         let mut c2 = cfg.clone();
         c2.cw20 = false;
